@@ -286,15 +286,15 @@ def run(ctx):
                 ctx.bad(R, '%s|%s@%s' % (f.get('name'), call_name(c), c.get('_line')), c, '%s scans memory without a length: it can read past the end of the input' % call_name(c))
     gos = [c for c in walk(body) if c.get('kind') == 'CXXMemberCallExpr' and call_name(c) == 'go']
     for i, g in enumerate(gos):
-        arg = canon(call_args(g)[0])
-        rels = relations(g)
+        arg = nf(call_args(g)[0])
+        rels = [(nf(r_[0]), r_[1], nf(r_[2])) for r_ in [relation(n_, p_) for n_, p_ in atoms(path_facts(g, ignore_kills_of=IGNORE))] if r_]
         ok = False
         import re as _re
-        m = _re.match(r'^\((\d+) \+ r\.where\(\)\)$', arg)
+        m = _re.match(r'^\((\d+) \+ r\.where\(\)\)$', arg) or _re.match(r'^\(r\.where\(\) \+ (\d+)\)$', arg)
         if m:
             k = int(m.group(1))
-            for a, op, b, _, _ in rels:
-                if a == '(%d + r.where())' % k and op in ('<', '<=') and b == 'r.size()':
+            for a, op, b in rels + [(b_, FLIP[op_], a_) for a_, op_, b_ in rels]:
+                if a in ('(%d + r.where())' % k, '(r.where() + %d)' % k) and op in ('<', '<=') and b == 'r.size()':
                     ok = True
         ctx.check(ok, R, 'go#%d' % i, g, 'go(%s) dominated by %s <(=) size()' % (arg, arg), 'go(%s) is not dominated by a test that the target is inside the input' % arg)
 
@@ -431,25 +431,44 @@ def check_whitespace_set(ctx, u, S, sflag):
     reached iff the byte is not one of the four JSON whitespace characters; '/' may depend on the
     following byte when extensions are enabled.  Decided by constant evaluation of the dominating
     conditions for each of the 256 byte values (E-BITS constant folding; helpers are inlined)."""
-    from bits import Interp, const_bv, T as TOP
+    from bits import Interp, const_bv, width_of_type, T as TOP
     R = 'C05-R9'
     sbody = body_of(S)
+    from tables import CTYPE
+    WS_ = {0x20, 0x09, 0x0D, 0x0A}
+    for c_ in walk_deep(sbody, u):
+        if c_.get('kind') == 'CallExpr' and call_name(c_) in CTYPE:
+            set_ = {b_ for b_ in range(256) if CTYPE[call_name(c_)](b_)}
+            ctx.check(set_ == WS_, R, 'skip|classifier|%s@%s' % (call_name(c_), c_.get('_line')), c_, '%s denotes exactly JSON whitespace' % call_name(c_),
+                      'whitespace is classified with %s(), whose set differs from JSON whitespace {space, tab, CR, LF}: %s' % (call_name(c_), '; '.join(x_ for x_ in ['it also accepts %s' % sorted(hex(v_) for v_ in set_ - WS_) if set_ - WS_ else '', 'it misses %s' % sorted(hex(v_) for v_ in WS_ - set_) if WS_ - set_ else ''] if x_)))
     rets = [x for x in walk(sbody) if x.get('kind') == 'ReturnStmt']
-    ctx.require(len(rets) == 1, 'skip_whitespace_and_comments: expected exactly one return (the stop-skipping exit)')
+    if len(rets) != 1 or len([x for x in walk(sbody) if x.get('kind') in LOOPS]) != 1:
+        ctx.undecided(R, 'skip|structure', S, 'skip_whitespace_and_comments is not a single loop with one stop-skipping return: the per-byte table is not extracted')
+        return
     ret = rets[0]
     loops = [x for x in walk(sbody) if x.get('kind') in LOOPS]
     ctx.require(len(loops) == 1, 'skip_whitespace_and_comments: expected one loop')
-    chv = [vd for vd in walk(loops[0]) if vd.get('kind') == 'VarDecl' and (dtype(vd) or '') in ('char', 'signed char', 'unsigned char', 'int8_t', 'uint8_t')]
+    def _bt(vd_):
+        return (dtype(vd_) or '').replace('const ', '').strip()
+    chv = [vd for vd in walk(loops[0]) if vd.get('kind') == 'VarDecl' and _bt(vd) in ('char', 'signed char', 'unsigned char', 'int8_t', 'uint8_t')]
     ctx.require(len(chv) == 1, 'skip_whitespace_and_comments: current-character variable not found')
     chd = chv[0]
-    signed = (dtype(chd) or '') in ('char', 'signed char', 'int8_t')
-    init_env = {}
+    signed = _bt(chd) in ('char', 'signed char', 'int8_t')
     I = Interp(u)
-    for s_ in preceding_statements(loops[0]):
-        if s_.get('kind') == 'DeclStmt':
-            for vd in kids(s_):
-                if vd.get('kind') == 'VarDecl' and kids(vd):
-                    init_env[vd['id']] = I.cast(I.eval(kids(vd)[-1], {}), dtype(vd))
+
+    def locals_env(env):
+        """constants of the named locals: those declared before the loop (initial scanner state) and the
+        pure ones declared in the loop body from the current character / the mode flag"""
+        for s_ in list(preceding_statements(loops[0])):
+            if s_.get('kind') == 'DeclStmt':
+                for vd in kids(s_):
+                    if vd.get('kind') == 'VarDecl' and kids(vd) and width_of_type(dtype(vd)):
+                        env[vd['id']] = I.cast(I.eval(kids(vd)[-1], env), dtype(vd))
+        for vd in walk(loops[0]):
+            if vd.get('kind') == 'VarDecl' and vd is not chd and kids(vd) and width_of_type(dtype(vd)) and vd['id'] not in env:
+                if not any(c_.get('kind') in ('CXXMemberCallExpr',) for c_ in walk(vd)):
+                    env[vd['id']] = I.cast(I.eval(kids(vd)[-1], env), dtype(vd))
+        return env
     facts = [f for f in path_facts(ret) if not any(y is loops[0] for y in [f.cond]) ]
     # drop the loop condition itself (input not exhausted)
     lcond = while_parts(loops[0])[0] if loops[0].get('kind') == 'WhileStmt' else None
@@ -457,9 +476,10 @@ def check_whitespace_set(ctx, u, S, sflag):
     WS = {0x20, 0x09, 0x0D, 0x0A}
     for strict in (0, 1):
         for b in range(256):
-            env = dict(init_env)
+            env = {}
             env[sflag['id']] = const_bv(strict, 1)
             env[chd['id']] = const_bv(b, 8, signed)
+            locals_env(env)
             reach = 1
             I.notes = []
             for f in facts:
